@@ -42,6 +42,10 @@ type op struct {
 	Ring  int    `json:"ring,omitempty"`  // ring size
 	Nin   int    `json:"nin,omitempty"`   // number of hidden inputs
 	Var   string `json:"var,omitempty"`   // hostile construction
+	// Struct: a STRUCTURAL variant of an otherwise honest confidential transaction, made by the owner of the keys
+	// (re-signed), whose commitments balance by construction: the chain may admit it or not, but if it does, every
+	// account input must be debited and every output credited (see structural variants in buildAin / buildSpend).
+	Struct string `json:"struct,omitempty"`
 }
 
 func (o op) String() string {
@@ -52,6 +56,7 @@ func (o op) String() string {
 		}
 	}
 	addf("var", o.Var)
+	addf("struct", o.Struct)
 	addf("from", o.From)
 	addf("w", o.W)
 	if o.Ring > 0 {
@@ -75,6 +80,11 @@ func (o op) String() string {
 
 // kindName: the root-cause-level name of an op (no amounts), used in violation keys.
 func (o op) kindName() string {
+	if o.Struct != "" {
+		b := o
+		b.Struct = ""
+		return b.kindName() + ":struct-" + o.Struct
+	}
 	tok := o.Tok
 	if tok == "" {
 		tok = "coin"
@@ -332,7 +342,13 @@ type txMeta struct {
 	NewOuts   []declOut
 	AccOut    *common.Address
 	AccAmount *big.Int
+	MoreAcc   []accPay // further account outputs (structural variants)
 	Inflation *big.Int // lie: declared minus real input amount
+}
+
+type accPay struct {
+	To     common.Address
+	Amount *big.Int
 }
 
 func (m *txMeta) utx() *types.UTXOTransaction {
@@ -648,6 +664,12 @@ func (x *bctx) buildAin(o op) (*txMeta, error) {
 		outs = append(outs, declOut{w, d.Sub, a})
 		total.Add(total, a)
 	}
+	var plusAcc *accPay
+	if o.Struct == "plus-aout" { // account input AND account output in one transaction (the stock wallet never builds it)
+		plusAcc = &accPay{txkit.D.Addr, txkit.LKC(1)}
+		entries = append(entries, &types.AccountDestEntry{To: plusAcc.To, Amount: new(big.Int).Set(plusAcc.Amount)})
+		total.Add(total, plusAcc.Amount)
+	}
 	min := minTokenFee
 	if tok == coinTok {
 		min = txkit.FeeAin(total)
@@ -715,11 +737,133 @@ func (x *bctx) buildAin(o op) (*txMeta, error) {
 			return nil, fmt.Errorf("hostile ain variants are coin only")
 		}
 	}
+	if plusAcc != nil {
+		m.AccOut, m.AccAmount = &plusAcc.To, plusAcc.Amount
+		m.Class = "free"
+	}
+	if o.Struct != "" && o.Struct != "plus-aout" {
+		var serr error
+		x.w.seeded(func() { serr = splitAccountInput(tx, o.Struct) })
+		if serr != nil {
+			return nil, serr
+		}
+		m.Class = "free" // balanced by construction; m.AinDebit (the sum of ALL account inputs) is unchanged
+	}
 	if err := tx.Sign(types.GlobalSTDSigner, from.Key); err != nil {
 		return nil, err
 	}
 	x.takeNonce(from.Addr)
 	return m, nil
+}
+
+// ---- structural variants of the account input --------------------------------------------------------------------
+
+var (
+	curveL, _ = new(big.Int).SetString("7237005577332262213973186563042994240857116359379907606001950938285454250989", 10)
+	invTwo    = new(big.Int).Rsh(new(big.Int).Add(curveL, big.NewInt(1)), 1) // (L+1)/2 = 2^-1 mod L
+)
+
+func scalarToBig(k lk.Key) *big.Int {
+	b := make([]byte, 32)
+	for i := range k {
+		b[31-i] = k[i]
+	}
+	return new(big.Int).SetBytes(b)
+}
+
+func bigToScalar(v *big.Int) lk.Key {
+	var k lk.Key
+	b := new(big.Int).Mod(v, curveL).Bytes()
+	for i := range b {
+		k[i] = b[len(b)-1-i]
+	}
+	return k
+}
+
+// splitAccountInput replaces the single account input (amount A, blinding factor CF) of an account -> confidential
+// transaction by several account inputs whose amounts add up to A and whose blinding factors add up to CF (mod L): the
+// sum of the input commitments, hence the commitment balance, is unchanged. Same nonce on every part. Must run inside
+// w.seeded (fresh blinding factors come from the deterministic generator). The caller signs afterwards.
+func splitAccountInput(tx *types.UTXOTransaction, how string) error {
+	if len(tx.Inputs) != 1 {
+		return fmt.Errorf("splitAccountInput: %d inputs", len(tx.Inputs))
+	}
+	orig, ok := tx.Inputs[0].(*types.AccountInput)
+	if !ok {
+		return fmt.Errorf("splitAccountInput: not an account input")
+	}
+	A := orig.Amount
+	units := new(big.Int).Div(A, unit)
+	if new(big.Int).Mod(A, unit).Sign() != 0 {
+		return disabled("amount %v is not a multiple of the unit", A)
+	}
+	u := func(n *big.Int) *big.Int { return new(big.Int).Mul(n, unit) }
+	var parts []*big.Int
+	same := false
+	switch how {
+	case "split", "split-rev": // 60% + 40%
+		if units.Cmp(bi(2)) < 0 {
+			return disabled("nothing to split")
+		}
+		b := new(big.Int).Div(new(big.Int).Mul(units, bi(2)), bi(5))
+		if b.Sign() == 0 {
+			b = bi(1)
+		}
+		parts = []*big.Int{u(sub(units, b)), u(b)}
+		if how == "split-rev" {
+			parts[0], parts[1] = parts[1], parts[0]
+		}
+	case "split3":
+		if units.Cmp(bi(3)) < 0 {
+			return disabled("nothing to split")
+		}
+		t := new(big.Int).Div(units, bi(3))
+		parts = []*big.Int{u(sub(units, mul(t, 2))), u(t), u(t)}
+	case "dup": // the SAME input twice (amount A/2, blinding factor CF/2)
+		if units.Bit(0) != 0 || units.Sign() == 0 {
+			return disabled("odd amount")
+		}
+		h := new(big.Int).Rsh(units, 1)
+		parts, same = []*big.Int{u(h), u(h)}, true
+	case "extra-zero":
+		parts = []*big.Int{new(big.Int).Set(A), bi(0)}
+	case "zero-first":
+		parts = []*big.Int{bi(0), new(big.Int).Set(A)}
+	case "extra-unit":
+		if units.Cmp(bi(2)) < 0 {
+			return disabled("nothing to split")
+		}
+		parts = []*big.Int{u(sub(units, bi(1))), u(bi(1))}
+	default:
+		return fmt.Errorf("unknown structural variant %q", how)
+	}
+	cfs := make([]lk.Key, len(parts))
+	if same {
+		half := bigToScalar(new(big.Int).Mul(scalarToBig(orig.CF), invTwo))
+		cfs[0], cfs[1] = half, half
+	} else {
+		rest := orig.CF
+		for i := 1; i < len(parts); i++ {
+			cfs[i] = ringct.SkGen()
+			rest = ringct.ScSub(lk.EcScalar(rest), lk.EcScalar(cfs[i]))
+		}
+		cfs[0] = rest
+	}
+	tx.Inputs = nil
+	for i, p := range parts {
+		tx.Inputs = append(tx.Inputs, &types.AccountInput{Nonce: orig.Nonce, Amount: p, CF: cfs[i],
+			Commit: types.AmountCommit(new(big.Int).Div(p, unit), cfs[i])})
+	}
+	// self-check of the construction: the commitments must still add up to the original one
+	var cs lk.KeyV
+	for _, in := range tx.Inputs {
+		cs = append(cs, in.(*types.AccountInput).Commit)
+	}
+	sum, err := ringct.AddKeyV(cs)
+	if err != nil || sum != orig.Commit {
+		return fmt.Errorf("splitAccountInput(%s): commitments do not add up (harness bug): %v", how, err)
+	}
+	return nil
 }
 
 // ---- spends of hidden outputs ------------------------------------------------------------------------------
@@ -890,8 +1034,37 @@ func (x *bctx) buildSpend(o op) (*txMeta, error) {
 		entries = append(entries, &types.UTXODestEntry{Addr: payW.Addr(paySub), Amount: new(big.Int).Set(pay), IsSubaddress: paySub > 0})
 		m.NewOuts = append(m.NewOuts, declOut{payW, paySub, pay})
 	} else {
-		entries = append(entries, &types.AccountDestEntry{To: payA, Amount: new(big.Int).Set(pay)})
-		m.AccOut, m.AccAmount = &payA, pay
+		if o.Struct == "two-aout-same" || o.Struct == "two-aout-diff" { // the payment split over two account outputs
+			p1 := new(big.Int).Mul(new(big.Int).Div(new(big.Int).Div(pay, unit), bi(2)), unit)
+			p2 := sub(pay, p1)
+			if p1.Sign() == 0 {
+				return nil, disabled("nothing to split")
+			}
+			to2 := payA
+			if o.Struct == "two-aout-diff" {
+				to2 = txkit.D.Addr
+			}
+			entries = append(entries, &types.AccountDestEntry{To: payA, Amount: new(big.Int).Set(p1)}, &types.AccountDestEntry{To: to2, Amount: new(big.Int).Set(p2)})
+			m.AccOut, m.AccAmount = &payA, p1
+			m.MoreAcc = append(m.MoreAcc, accPay{to2, p2})
+		} else {
+			entries = append(entries, &types.AccountDestEntry{To: payA, Amount: new(big.Int).Set(pay)})
+			m.AccOut, m.AccAmount = &payA, pay
+		}
+	}
+	// mix-ain: an account input of 5 coins NEXT TO the hidden inputs; the first hidden output takes the 5 coins
+	var mixAcc *txkit.Account
+	mixAmount := txkit.LKC(5)
+	if o.Struct == "mix-ain" {
+		if !toWallet || tok != coinTok || o.Kind != "uspend" {
+			return nil, fmt.Errorf("mix-ain: honest coin spend to a wallet only")
+		}
+		mixAcc = account(o.From)
+		if mixAcc == nil {
+			mixAcc = txkit.B
+		}
+		m.NewOuts[0].Amount = add(pay, mixAmount)
+		m.Payer, m.AinDebit = mixAcc.Addr, mixAmount
 	}
 	if hostileVar == "out-of-range" {
 		// second output: "minus 1000 coins"; the first one commits to 1000 coins more than the constructor is told
@@ -964,12 +1137,44 @@ func (x *bctx) buildSpend(o op) (*txMeta, error) {
 			berr = signSpendWithAmountKeys(tx, sources, ephs, lk.KeyV{k0, neg}, mkeys)
 			return
 		}
+		if mixAcc != nil {
+			cf := ringct.SkGen()
+			tx.Inputs = append(tx.Inputs, &types.AccountInput{Nonce: x.peekNonce(mixAcc.Addr), Amount: new(big.Int).Set(mixAmount), CF: cf,
+				Commit: types.AmountCommit(new(big.Int).Div(mixAmount, unit), cf)})
+			if berr = tx.Sign(types.GlobalSTDSigner, mixAcc.Key); berr != nil {
+				return
+			}
+			var keys lk.KeyV
+			for _, out := range m.NewOuts {
+				k, _ := types.BigInt2Hash(new(big.Int).Div(out.Amount, unit))
+				keys = append(keys, k)
+			}
+			berr = signSpendWithAmountKeysMask(tx, sources, ephs, keys, mkeys, cf)
+			return
+		}
 		berr = types.UInTransWithRctSig(tx, sources, ephs, entries, mkeys)
+		if berr == nil && o.Struct == "reorder" { // inputs 0 and 1 exchanged TOGETHER WITH their proofs
+			if len(tx.Inputs) < 2 {
+				berr = disabled("reorder needs two inputs")
+				return
+			}
+			tx.Inputs[0], tx.Inputs[1] = tx.Inputs[1], tx.Inputs[0]
+			p := &tx.RCTSig.P
+			p.PseudoOuts[0], p.PseudoOuts[1] = p.PseudoOuts[1], p.PseudoOuts[0]
+			p.MGs[0], p.MGs[1] = p.MGs[1], p.MGs[0]
+			p.Ss[0], p.Ss[1] = p.Ss[1], p.Ss[0]
+		}
 	})
 	if berr != nil {
 		return nil, disabled("constructor: %v", berr)
 	}
 	m.Tx = tx
+	if mixAcc != nil {
+		x.takeNonce(mixAcc.Addr)
+	}
+	if o.Struct != "" && m.Class == "valid" {
+		m.Class = "free"
+	}
 	if m.Class == "valid" {
 		bad := new(big.Int).Mod(fee, price).Sign() != 0 || fee.Cmp(minFee(accOrNil(!toWallet, pay), len(m.NewOuts) > 0)) < 0
 		for _, out := range m.NewOuts {
@@ -1002,6 +1207,12 @@ func accOrNil(isAcc bool, a *big.Int) *big.Int {
 // outputs closing the mask balance, pre-MLSAG hash, one-member ring signatures or MLSAGs. Used for one hostile
 // construction only (an output whose amount is a "negative" scalar).
 func signSpendWithAmountKeys(tx *types.UTXOTransaction, sources []*types.UTXOSourceEntry, ins []*types.UTXOInputEphemeral, outAmounts lk.KeyV, mkeys lk.KeyV) error {
+	return signSpendWithAmountKeysMask(tx, sources, ins, outAmounts, mkeys, ringct.Z)
+}
+
+// signSpendWithAmountKeysMask: extraInMask is the blinding factor of an account input that sits next to the hidden
+// inputs (the pseudo outputs close the mask balance around it).
+func signSpendWithAmountKeysMask(tx *types.UTXOTransaction, sources []*types.UTXOSourceEntry, ins []*types.UTXOInputEphemeral, outAmounts lk.KeyV, mkeys lk.KeyV, extraInMask lk.Key) error {
 	if len(outAmounts) != len(mkeys) {
 		return types.ErrOutsAndMkeysNotMatch
 	}
@@ -1046,7 +1257,7 @@ func signSpendWithAmountKeys(tx *types.UTXOTransaction, sources []*types.UTXOSou
 	tx.RCTSig.P.MGs = make([]lk.MgSig, n)
 	tx.RCTSig.P.Ss = make([]lk.Signature, n)
 	ra := make(lk.KeyV, n)
-	sumIn := ringct.Z
+	sumIn := extraInMask
 	for i := 0; i < n-1; i++ {
 		ra[i] = ringct.SkGen()
 		sumIn = ringct.ScAdd(lk.EcScalar(ra[i]), lk.EcScalar(sumIn))
